@@ -180,8 +180,8 @@ fn jet_row<J: Fam>(ctx: &mut Ctx, i: usize) {
     let line = format!("jet {} {}", J::NAME, i);
     ctx.op(&line, &format!("name={} code={} cmr={} src={} tgt={} cost={}", name, bits_str(&c), cmr, src, tgt, cost));
     ctx.case(Some(&line));
-    ctx.count(&format!("reach:{}-row", J::NAME));
-    if ctx.want_sample() && i % 97 == 5 {
+    ctx.count(&format!("exhaustive:{}-rows", J::NAME));
+    if i % 211 == 5 {
         ctx.sample(&format!("{line} -> {name} code={} src={src} tgt={tgt}", bits_str(&c)));
     }
     // decode(encode j) = j, consuming exactly the code (followed by ones, so that a longer read shows)
@@ -225,6 +225,10 @@ fn one_decode<J: Fam>(ctx: &mut Ctx, bits: &[bool], kind: &str) {
     };
     ctx.op(&line, &out);
     ctx.count(&format!("decode:{kind}"));
+    if kind == "flipped" && bits.len() == 24 && ctx.get_count(&format!("sampled:{}", J::NAME)) < 2 {
+        ctx.count(&format!("sampled:{}", J::NAME));
+        ctx.sample(&format!("{line} -> {out}"));
+    }
     match &r {
         Ok(j) => {
             ctx.case(Some(&line));
@@ -259,7 +263,7 @@ fn one_parse<J: Fam>(ctx: &mut Ctx, s: &str) {
     match &r {
         Ok(j) => {
             ctx.case(Some(&line));
-            ctx.count(&format!("reach:{}-parse-some", J::NAME));
+            ctx.count(&format!("exhaustive:{}-names-parse", J::NAME));
             if j.to_string() != s {
                 ctx.fail("parse-not-display", &line, &format!("parses to {}", j));
             }
@@ -360,7 +364,7 @@ fn pair(ctx: &mut Ctx, i: usize) {
             let code_ok = ec.len() == cc.len() + 1 && !ec[0] && ec[1..] == cc[..];
             ctx.op(&line, &format!("{} types={} code={}", j, types as u8, code_ok as u8));
             ctx.case(Some(&line));
-            ctx.count("reach:core-elements-pair");
+            ctx.count("exhaustive:core-elements-pairs");
             if !types {
                 ctx.fail("core-elements-types", &line, &format!("{name}: core {} -> {}, elements {} -> {}", c.source_ty().to_final(), c.target_ty().to_final(), e.source_ty().to_final(), e.target_ty().to_final()));
             }
@@ -474,8 +478,8 @@ fn cjet(ctx: &mut Ctx, i: usize) {
         Ok(c) => {
             ctx.op(&line, &format!("name={} cmr={} cost={} srcw={} tgtw={}", name, hex(&c.cmr), c.cost, c.src_bits, c.tgt_bits));
             ctx.case(Some(&line));
-            ctx.count("reach:elements-through-C");
-            if ctx.want_sample() && i % 89 == 7 {
+            ctx.count("exhaustive:elements-jets-through-C");
+            if i % 233 == 7 {
                 ctx.sample(&format!("{line} -> {name} program={} C: cost={} {}->{} bits", hex(&program), c.cost, c.src_bits, c.tgt_bits));
             }
             let (sf, tf) = (j.source_ty().to_final(), j.target_ty().to_final());
@@ -536,7 +540,7 @@ fn source_rows(ctx: &mut Ctx, script: &str, only: Option<&str>) {
             continue;
         }
         if t[0] == "summary" {
-            ctx.count_n("reach:extern-fn-declarations", t[1].parse().unwrap_or(0));
+            ctx.count_n("exhaustive:extern-fn-declarations", t[1].parse().unwrap_or(0));
             ctx.count_n("extern-statics(observed-only)", t[2].parse().unwrap_or(0));
             ctx.evaluations += t[1].parse::<u64>().unwrap_or(0);
             continue;
